@@ -645,11 +645,11 @@ var svuTable = []string{
 	"res(u8,bool)", "res(st(),str)", "res(uint,st())", "res(bytes,res(u16,i8))", "res(opt(u32),big)",
 	svuEnumA, svuEnumB, svuEnumC, "sl(" + svuEnumA + ")", "opt(" + svuEnumC + ")",
 	"arr(0,u8)", "arr(3,u16)", "arr(4,uint)", "arr(32,u8)", "arr(2,arr(2,i16))", "arr(2,opt(bool))",
-	"sl(u8)", "sl(u16)", "sl(uint)", "sl(big)", "sl(bytes)", "sl(str)", "sl(sl(u8))", "sl(opt(u64))", "sl(arr(2,u8))",
+	"sl(nm(u8))", "sl(u16)", "sl(uint)", "sl(big)", "sl(bytes)", "sl(str)", "sl(sl(u16))", "sl(opt(u64))", "sl(arr(2,u8))",
 	"sl(st(_:u8,_:bool))", "sl(st(1:uint,0:bytes))",
-	"map(u8,u16)", "map(u32,bytes)", "map(uint,bool)", "map(u64,opt(u8))", "map(u16,sl(u8))",
+	"map(u8,u16)", "map(u32,bytes)", "map(uint,bool)", "map(u64,opt(u8))", "map(u16,sl(i8))",
 	"st()", "st(_:u8)", "st(_:u8,_:u16,_:u32)", "st(2:u8,1:u16,0:u32)", "st(1:u8,_:u16,0:u32,_:bool)",
-	"st(_:bytes,_:opt(str),_:uint)", "st(5:big,3:u128,_:int)", "st(_:st(_:u8,_:st(1:bool,0:u16)),_:sl(u8))",
+	"st(_:bytes,_:opt(str),_:uint)", "st(5:big,3:u128,_:int)", "st(_:st(_:u8,_:st(1:bool,0:u16)),_:sl(u32))",
 	"st(_:res(u8,bool),_:u16)", "st(0:" + svuEnumA + ",_:map(u8,u8))", "st(_:arr(3,uint),_:sl(i64))",
 	"st(10:u8,9:u8,8:u8,7:u8,6:u8,5:u8,4:u8,3:u8,2:u8,1:u8,0:u8)",
 }
@@ -682,6 +682,9 @@ func svuGenTy(r *vu.RNG, depth int, resOK bool) string {
 	case 4, 5:
 		for {
 			e := svuGenTy(r, depth-1, false)
+			if e == "u8" {
+				continue // []uint8 is []byte (desc "bytes"); sl(nm(u8)) is the element-wise slice
+			}
 			if svuMinSize(svuParseTy(e)) >= 1 {
 				return "sl(" + e + ")"
 			}
